@@ -212,9 +212,9 @@ func c19RenderCase(r *fw.Rand, depth, wrap, padEntry, padCallee int, sameFile bo
 	a.WriteString("/** @param? u */\n{template .leaf}{isNonnull($u)}{/template}\n")
 	b.WriteString("/** @param? u */\n{template .leaf}{isNonnull($u)}{/template}\n")
 	// file names are only labels: sometimes both files carry the same (or no) name
-	entryFile = []string{"entry.soy", "entry.soy", "", "same.soy"}[r.Intn(4)]
+	entryFile = []string{"entry.soy", "entry.soy", "", "same.soy", "./views/entry.soy", "views//entry.soy", "views/../entry.soy", "entry.soy/"}[r.Intn(8)]
 	calleeFile := "callee.soy"
-	if entryFile != "entry.soy" {
+	if entryFile == "" || entryFile == "same.soy" {
 		calleeFile = entryFile
 	}
 	files = []srcFile{{entryFile, a.String()}}
@@ -266,7 +266,9 @@ func init() {
 						sites = append(sites, l+1)
 					}
 				}
-				name := fmt.Sprintf("dir/in%d.soy", i)
+				// file names are labels given by the caller: whatever their form, errors carry them as given
+				name := []string{"dir/in%d.soy", "./views/in%d.soy", "views//in%d.soy", "views/../in%d.soy", "in%d.soy/", "C:\\tpl\\in%d.soy", " spaced name %d.soy", "\u540d\u524d%d.soy", "a/./b/in%d.soy", "in%d"}[i%10]
+				name = fmt.Sprintf(name, i)
 				for _, at := range sites {
 					for _, fault := range c19ParseFaults {
 						mut := insertLine(src, at, fault.line)
@@ -317,7 +319,7 @@ func init() {
 			}
 			var tofu *soyhtml.Tofu
 			var err error
-			if k%4 == 2 && len(files) == 2 && files[0].Name != files[1].Name && files[0].Name != "" && files[1].Name != "" {
+			if k%4 == 2 && len(files) == 2 && files[0].Name != files[1].Name && files[0].Name != "" && files[1].Name != "" && !strings.Contains(files[0].Name+files[1].Name, "/") {
 				// the same files read from disk through Bundle.AddTemplateFile, with blank lines before the namespace
 				// declaration: the line numbers are those of the file as it is on disk
 				lead := 1 + ctx.Rng.Intn(5)
